@@ -5,7 +5,7 @@ ENGINE_ASSUME = [
     "handler classes have pairwise distinct code pointers (asserted by a start-up self-test)",
 ]
 
-HOOK_COMMITS = []
+HOOK_COMMITS = ["cf83fa6"]
 NOT_APPLICABLE = {}
 
 PROPS = {
@@ -132,6 +132,18 @@ PROPS = {
         "assumptions": ["the reference durable-streams server (ahimsalabs memorystorage) stands in for a real server"],
         "parts": [
             {"name": "lockstep", "pkg": "c10", "run": "^TestC10$", "shards": {"quick": 4, "thorough": 16}, "timeout": {"quick": 400, "thorough": 3000}},
+        ],
+    },
+    "C11": {
+        "level": "fault_enumeration",
+        "level_text": "Enumerated completely for the tier's bounds: store configuration {memory streaming, memory paged, SQLite unbatched, SQLite stream batch 1/2/3/5, durable-streams with default and 400-byte server chunks} x replay batch size {1,2,(3,5,)100,unset} x log length 0..6 (quick) / 0..12 (thorough) x every start offset x failure {none, callback error at event k, context cancelled inside the callback at event k, context cancelled before the call, store read / stream-open / stream-yield error at every index (wrapper), SQLite row-iteration error at every row of every batch query (database/sql driver wrapper through the verif hook)} for every k. Each replay: the callback sequence must be a gap-free, duplicate-free, in-order prefix of the reference suffix; nil only if complete; callback and injected store errors must surface; no append and no handler dispatch during replay.",
+        "level_note": "A cancelled replay that nevertheless delivers everything and returns nil is accepted (it did deliver every event); what is refuted is nil after a proper prefix. Injected SQL errors fire only where a real row would have been returned. Start offsets are Append results (resumable on every store).",
+        "technique": "runtime monitoring with fault injection: enumerated failure positions through store wrappers and a database/sql driver wrapper, offline prefix/verdict oracle per replay",
+        "design_ref": "DESIGN.md section 5 C11, sections 3.8, 4.5",
+        "rule": "full grid as described; distinct = (config, batch, length, start, failure kind, k, query); non-trivial = the failure position lies strictly inside a page/batch, or the suffix is longer than the batch size",
+        "assumptions": ["faultsql wraps the real modernc driver and only alters Rows.Next at the chosen row"],
+        "parts": [
+            {"name": "replay", "pkg": "c11", "run": "^TestC11$", "shards": {"quick": 4, "thorough": 16}, "timeout": {"quick": 400, "thorough": 3000}},
         ],
     },
 }
